@@ -60,6 +60,9 @@ func c02(r *Report) {
 	r.Gate(Gate{ID: "C02.s2s.audience", Fn: s2s, Effect: issue, ForEach: true, Check: ErrCheck(Fn(iam, "Wrapper", "validatePresentationAudience"))})
 	r.Gate(Gate{ID: "C02.s2s.definition-for-scope", Fn: s2s, Effect: issue, Check: ErrCheck(Fn(iam, "Wrapper", "presentationDefinitionForScope"))})
 	c02PolicyScope(r)
+	c02SubjectCarried(r, "C02.s2s.same-subject-across-presentations", s2s)
+	c02SubjectCarried(r, "C02.mint.same-subject-across-presentations", p.Func(iam, "Wrapper", "handleAuthorizeResponseSubmission"))
+	c02SessionReadOnly(r, p.Func(iam, "Wrapper", "handleAccessTokenRequest"))
 	r.Gate(Gate{ID: "C02.s2s.fulfil", Fn: s2s, Effect: issue, Check: ErrCheck(Fn(iam, "PEXConsumer", "fulfill"))})
 	r.Gate(Gate{ID: "C02.s2s.nonce", Fn: s2s, Effect: issue, ForEach: true, Check: ErrCheck(Fn(iam, "Wrapper", "validateS2SPresentationNonce"))})
 	r.Gate(Gate{ID: "C02.s2s.dpop", Fn: s2s, Effect: issue, Check: ErrCheck(Fn(iam, "", "dpopFromRequest"))})
@@ -125,6 +128,8 @@ func c02(r *Report) {
 	in := p.Func(iam, "Wrapper", "introspectAccessToken")
 	active := ReturnsNonNil(0)
 	r.Gate(Gate{ID: "C02.introspect.known-token", Fn: in, Effect: active, Check: ErrCheck(StoreOp("accessTokenServerStore", "Get"))})
+	r.ArgIs("C02.introspect.expiry-compared-with-now.argument", in, Fn("std:time", "Time", "Before"), 0, NowV(), 1)
+	r.ArgIs("C02.introspect.expiry-compared-with-now.receiver", in, Fn("std:time", "Time", "Before"), -1, FieldV("AccessToken", "Expiration"), 1)
 	r.Gate(Gate{ID: "C02.introspect.not-expired", Fn: in, Effect: active, Check: CallCheck(Fn("std:time", "Time", "Before"), -1, IsFalse)})
 	c02IntrospectLiteral(r, in)
 	c02Reserved(r, in)
@@ -508,4 +513,108 @@ func c02PolicyScope(r *Report) {
 	}
 	r.ReturnsOnly(key2+".result", pdfs, 0, true, p.FnOrImpl("policy", "PDPBackend", "PresentationDefinitions"))
 	r.OK(key2, rule2, p.Pos(calls[0].Pos()), "scope parameter passed through", true)
+}
+
+// c02SubjectCarried: validatePresentationSigner compares each presentation's subject with the previous one's: the
+// expected-subject argument is a variable that is assigned, inside the loop, from the call's own result.
+func c02SubjectCarried(r *Report, id string, fn *ssa.Function) {
+	rule := "ARG: the expected-subject argument of validatePresentationSigner is carried over from the previous presentation (assigned in the loop from the call's result)"
+	if fn == nil {
+		r.Lost(id, rule, "function not found")
+		return
+	}
+	key := id + " @ " + r.P.FuncName(fn)
+	calls := Calls(fn, Fn("auth/api/iam", "", "validatePresentationSigner"))
+	r.Sites += len(calls)
+	if len(calls) != 1 {
+		r.Lost(key, rule, fmt.Sprintf("%d validatePresentationSigner calls", len(calls)))
+		return
+	}
+	call := calls[0].(*ssa.Call)
+	l := InnermostLoop(Loops(fn), call.Block())
+	if l == nil {
+		r.Bad(key, rule, r.P.Pos(call.Pos()), "the signer check is not in a loop over the presentations")
+		return
+	}
+	arg := StripConv(CallArg(call.Common(), 1))
+	fromCall := func(v ssa.Value) bool {
+		v = StripConv(v)
+		if u, ok := v.(*ssa.UnOp); ok && u.Op == token.MUL {
+			v = StripConv(u.X)
+		}
+		ex, ok := v.(*ssa.Extract)
+		return ok && ex.Tuple == ssa.Value(call) && ex.Index == 0
+	}
+	if phi, ok := arg.(*ssa.Phi); ok && l.Body[phi.Block()] {
+		for _, e := range phi.Edges {
+			if fromCall(e) {
+				r.OK(key, rule, r.P.Pos(call.Pos()), "loop-carried (phi of the zero value and the previous result)", true)
+				return
+			}
+		}
+		r.Bad(key, rule, r.P.Pos(call.Pos()), "the loop-carried value never comes from the call's result: every presentation is compared with the empty DID, mixed subjects pass")
+		return
+	}
+	ld, ok := arg.(*ssa.UnOp)
+	if !ok || ld.Op != token.MUL {
+		r.Bad(key, rule, r.P.Pos(call.Pos()), "the expected subject is "+AccessPath(arg, 0)+", not a variable carried across iterations")
+		return
+	}
+	cell, ok := ld.X.(*ssa.Alloc)
+	if !ok {
+		r.Bad(key, rule, r.P.Pos(call.Pos()), "the expected subject is not a local variable")
+		return
+	}
+	carried := false
+	for _, ref := range *cell.Referrers() {
+		st, ok := ref.(*ssa.Store)
+		if !ok || st.Addr != ssa.Value(cell) || !l.Body[st.Block()] {
+			continue
+		}
+		v := StripConv(st.Val)
+		if u, ok := v.(*ssa.UnOp); ok && u.Op == token.MUL {
+			v = StripConv(u.X)
+		}
+		if ex, ok := v.(*ssa.Extract); ok && ex.Tuple == ssa.Value(call) && ex.Index == 0 {
+			carried = true
+		}
+	}
+	if !carried {
+		r.Bad(key, rule, r.P.Pos(call.Pos()), "the variable is never assigned from the call's result inside the loop: every presentation is compared with the empty DID, mixed subjects pass")
+		return
+	}
+	r.OK(key, rule, r.P.Pos(call.Pos()), "loop-carried through a local variable", true)
+}
+
+// c02SessionReadOnly: in the code flow the session loaded by the burn-read is not modified before the token is created
+// (client id, scope and PEX state are what was authorised, not what the redeeming request says).
+func c02SessionReadOnly(r *Report, fn *ssa.Function) {
+	rule := "OWN: handleAccessTokenRequest never assigns a field of the loaded OAuthSession"
+	key := "C02.code.session-read-only"
+	if fn == nil {
+		r.Lost(key, rule, "handleAccessTokenRequest not found")
+		return
+	}
+	n := 0
+	for _, f := range WithAnons(fn) {
+		for _, b := range f.Blocks {
+			for _, in := range b.Instrs {
+				st, ok := in.(*ssa.Store)
+				if !ok {
+					continue
+				}
+				fa, ok := st.Addr.(*ssa.FieldAddr)
+				if !ok {
+					continue
+				}
+				n++
+				if nt := NamedOf(fa.X.Type()); nt != nil && nt.Obj().Name() == "OAuthSession" {
+					r.Bad(key, rule, r.P.Pos(st.Pos()), "assigns OAuthSession."+AccessPath(fa, 0)+" = "+AccessPath(st.Val, 0))
+					return
+				}
+			}
+		}
+	}
+	r.Sites += n
+	r.OK(key, rule, r.P.Pos(fn.Pos()), fmt.Sprintf("%d field stores examined, none into the session", n), true)
 }
